@@ -20,12 +20,23 @@ RULE = ('corpus first; data lines include nicknames that begin with / equal / co
         'braces and str.format fields, % directives, backslashes, quotes, shell / regex characters), also in data lines, error '
         'lines and wrong replies: 14 edge payloads x kind x 2 templates x delay x {no fault, write fault, one fault of every '
         'kind at every position, 7 error lines and 8-9 wrong lines in place of every reply line, silence}, at 99/100/101 empty '
-        'reads, random payloads in 1-3 call sequences at every position and inside the longer histories.  A case is one call of one '
+        'reads, random payloads in 1-3 call sequences at every position and inside the longer histories; long but valid requests '
+        '(full-range legacy LM/LT/SM/XM/HM moves with 10-digit signed arguments, zero- and blank-padded arguments, long ST/QT/QU '
+        'free text; command, no-OK query and ordinary query) with lengths on and around 64/128/256 (-2..+2, with and without '
+        'terminator) and 16/32/192/512/1024/2048/4096 (-1..+1), multiples of 64, 40-300 and a few kB: single calls x {no fault, '
+        'write fault, one fault of every kind at every reply position, error and wrong lines}, followed / preceded by every kind '
+        'of request, the same long text repeated, random 1-4 call sequences and inside the longer histories; long reply lines '
+        '(`A` with 1..16 channels, free text on/around 64/128/256 bytes).  "Written exactly once" = one write() call carrying '
+        'all the bytes (calls are counted, not the concatenation); the verbose argument: every kind of request x every fault '
+        '(write fault, one fault at every reply position, error / wrong lines, silence, 101 empty reads) x verbose in {True, False, '
+        '1, 0, None, 2, "", "quiet", 0.0, []} (the real code gets the object, the regenerated functions its truth value), '
+        'and non-bool verbose values in about a fifth of the calls of the random fault streams.  A case is one call of one '
         'history; non-trivial = the call had a port and a text; distinct by (history, position)')
 TRUSTED = ['translator/pyio2lean.py + lean/Plotink/PyIO.lean (Python I/O subset -> Lean; validated on every run by executing '
            'the regenerated Gen.ebb_serial_query/command on all histories of this module against the real code: value, '
            'type, escaping exception class, bytes written, reads consumed must be identical)',
-           'harness/c07.py fake port (pyserial API as used by the code: write, readline) and its script player',
+           'harness/c07.py fake port (pyserial API as used by the code: write, readline; readline(size) returns at most '
+           'size bytes of the line and keeps the rest, as io.RawIOBase does) and its script player',
            'AST extraction of retry bounds / no-OK list / decode-in-retry-loop from plotink/ebb_serial.py',
            'modelled not verified: pyserial, str.encode/bytes.decode(ascii), str.split/strip/lower on ASCII text, '
            'the logging module (log records are not compared; only that nothing raises)']
@@ -182,11 +193,15 @@ class FakePort:
             raise make_exc(o if o in EXC_NAMES else 'SerialException')
         return len(data)
 
-    def readline(self, *a, **k):
+    def readline(self, size=-1, *a, **k):
         self.nread += 1
         if self.qpos >= len(self.queue):
             return b''
         r = self.queue[self.qpos]
+        if isinstance(r, (bytes, bytearray)) and isinstance(size, int) and 0 <= size < len(r):
+            # io.RawIOBase.readline(size): at most `size` bytes of the line; the rest stays in the buffer
+            self.queue[self.qpos] = r[size:]
+            return r[:size]
         self.qpos += 1
         if isinstance(r, Raise):
             raise make_exc(r.name)
@@ -300,6 +315,12 @@ def run_impl_interleaved(es, hists, rng):
 GEN_FUEL = 101      # the bound of the bridge theorems (C07_gen_bridge: fuel >= 101)
 
 
+def verbose_tok(v):
+    """the driver line carries True | False | None; the code only tests the truthiness of `verbose`, so any other
+    object goes to the regenerated functions as its truth value (the real code gets the object itself)"""
+    return 'None' if v is None else str(bool(v))
+
+
 def gen_line(hist):
     """the same history for the source-regenerated functions (`c07 gseq`, Drv/C07.lean)"""
     parts = ['c07 gseq', str(GEN_FUEL), hist.get('wexc', 'SerialException'), hist['w'] or '-'] + tok_str(hist['pre'])
@@ -307,7 +328,7 @@ def gen_line(hist):
         parts.append(';')
         parts += [call['kind'], '1' if call['port'] else '0',
                   'None' if call['cmd'] is None else common.enc_str(call['cmd']),
-                  str(call.get('verbose', True))] + tok_str(call['reply'])
+                  verbose_tok(call.get('verbose', True))] + tok_str(call['reply'])
     return ' '.join(parts)
 
 
@@ -433,9 +454,14 @@ def judge(ctx, hist, obs, port):
         req = call['cmd'].encode('ascii')
         wok = o['wok']
         # one write of the request, exactly
+        # one write of the request, exactly: ONE call of write() carrying ALL the bytes of the request (a request
+        # handed over in pieces, written twice, truncated or padded is not "written exactly once", even when the
+        # pieces concatenate to the request)
         if o['writes'] != [req]:
+            nbytes = sum(len(w) for w in o['writes'] if isinstance(w, (bytes, bytearray)))
             ctx.violate(f'{kindname}: request not written exactly once', inp,
-                        repr(o['writes']), repr([req]))
+                        f'{len(o["writes"])} write call(s), {nbytes} byte(s) in total: {o["writes"]!r}',
+                        f'1 write call of {len(req)} byte(s): {[req]!r}')
         # never raises
         if o['exc'] is not None:
             ctx.violate(f'{kindname} raised {type(o["exc"]).__name__}', inp, f'{type(o["exc"]).__name__}: {o["exc"]}',
@@ -494,6 +520,17 @@ def strict_expectation(hist, k, o):
 # generators
 # ------------------------------------------------------------------------------------------------
 DELAYS = [0, 1, 100, 101]
+# `verbose` selects the log level of a fault report; the primitives accept any object there (truthiness only), and
+# callers do pass 0/1, None and strings.  Whatever it is, a fault must still be contained.
+VERBOSE_VALUES = [True, False, 1, 0, None, 2, '', 'quiet', 0.0, []]
+VERBOSE_ODD = [1, 0, None, None, 2, '', 'quiet', 'quiet', 0.0, [], -1, 'False']
+
+
+def rverbose(rng, p_true=0.5, p_odd=0.2):
+    """a verbose flag: a bool, now and then another truthy / falsy object"""
+    if rng.random() < p_odd:
+        return rng.choice(VERBOSE_ODD)
+    return rng.random() < p_true
 
 
 def base_reply(kind, data, delays):
@@ -613,7 +650,7 @@ def gen_exhaustive(ctx):
         else:
             reps[j] = rng.choice(fault_variants(reps[j], exc))
         yield {'pre': [], 'w': w, 'wexc': exc,
-               'calls': [mk_call(t, r, verbose=rng.random() < 0.5) for (t, x), r in zip(ps, reps)]}
+               'calls': [mk_call(t, r, verbose=rverbose(rng)) for (t, x), r in zip(ps, reps)]}
 
 
 RDELAYS = [0, 0, 0, 0, 1, 1, 2, 3, 17, 50, 99, 100, 100, 101, 102, 250]
@@ -642,15 +679,18 @@ def gen_random(ctx):
                 calls.append({'kind': rng.choice('qc'), 'port': False, 'cmd': None, 'reply': [], 'verbose': False})
             elif r < 0.10:
                 calls.append({'kind': rng.choice('qc'), 'port': True, 'cmd': '', 'reply': rng.choice([[], [L(OK)], rep]), 'verbose': True})
-            elif r < 0.22:     # a request text with unusual characters (free text, format-like fragments)
+            elif r < 0.15:     # a long request (full-range move, padded arguments, long free text), now and then a long reply line
+                calls.append(long_call(rng, 'c' if k == 'c' else None, faulty=max(p_fault, 0.15),
+                                       line_len=long_len(rng) if rng.random() < 0.15 else None))
+            elif r < 0.27:     # a request text with unusual characters (free text, format-like fragments)
                 payload = odd_payload(rng)
                 k, t = odd_text(rng, 'c' if k == 'c' else rng.choice(['c', 'q1', 'q2']), payload)
                 rep = base_reply(k, None if k == 'c' else odd_data(rng, k, t, payload), dl)
                 if rng.random() < max(p_fault, 0.3):
                     rep = rng.choice(odd_fault_replies(rng, k, t, payload, rep, rng.choice(EXC_NAMES), full=True))
-                calls.append(mk_odd_call(k, t, rep, verbose=rng.random() < 0.7))
+                calls.append(mk_odd_call(k, t, rep, verbose=rverbose(rng, 0.7)))
             else:
-                calls.append(mk_call(t, rep, verbose=rng.random() < 0.7))
+                calls.append(mk_call(t, rep, verbose=rverbose(rng, 0.7)))
         w = ''.join('x' if rng.random() < p_fault / 2 else 'o' for _ in range(n))
         pre = []
         if rng.random() < 0.15:
@@ -804,18 +844,331 @@ def gen_odd_text(ctx):
                 rep = base_reply(kind, data, (rng.choice(RDELAYS), rng.choice(RDELAYS)))
                 if rng.random() < (0.85 if i == j else 0.3):
                     rep = rng.choice(odd_fault_replies(rng, kind, text, payload, rep, rng.choice(EXC_NAMES), full=True))
-                calls.append(mk_odd_call(kind, text, rep, verbose=rng.random() < 0.5))
+                calls.append(mk_odd_call(kind, text, rep, verbose=rverbose(rng)))
             else:
                 k = rng.choice(['q2', 'q1', 'c'])
                 t, x = rng.choice(tables[k])
                 rep = base_reply(k, x, (rng.choice(RDELAYS), rng.choice(RDELAYS)))
                 if rng.random() < 0.3:
                     rep = rng.choice(fault_variants(rep, rng.choice(EXC_NAMES)))
-                calls.append(mk_call(t, rep, verbose=rng.random() < 0.5))
+                calls.append(mk_call(t, rep, verbose=rverbose(rng)))
         w = ''
         if rng.random() < 0.1:
             w = 'o' * rng.randrange(n) + 'x'
         yield {'pre': [], 'w': w, 'wexc': rng.choice(EXC_NAMES), 'calls': calls}
+
+
+# ---- long but valid request texts (and long reply lines) ---------------------------------------------------------
+# "The request is written exactly once" holds for every request, whatever its length: a full-range legacy LM move has
+# 70-80 bytes, numeric arguments may be zero- or blank-padded, ST carries free text.  Lengths sit on and around the
+# sizes at which a transport layer would cut, chunk or truncate (USB packet 64, powers of two, multiples of 64, a few
+# kB), counted with and without the terminator.  Reply lines get the same treatment (an `A` reply has 8 bytes per
+# analog channel, up to 131 bytes; QT reads back free text): a primitive that reads a bounded number of bytes per
+# readline() splits them.
+LONG_BOUNDS_MAIN = [64, 128, 256]
+LONG_BOUNDS_MORE = [16, 32, 192, 512, 1024, 2048, 4096]
+I32 = [2147483647, -2147483648, -2147483647, 2147483646, -2147483646, 1073741824, -1073741825, 1000000000,
+       -1000000000, 1999999999, -1999999999]
+LONG_CM = [['EM', '1', '1'], ['SP', '1'], ['SP', '0', '150', '4'], ['SC', '4', '16000'], ['SM', '1000', '250', '-250'],
+           ['XM', '500', '10', '10'], ['TP'], ['RB'], ['CS'], ['PO', 'B', '3', '1'], ['sp', '1', '150']]
+LONG_Q1 = [['PI', 'B', '3'], ['MR', '3'], ['QG'], ['QM'], ['A'], ['I'], ['V'], ['v'], ['qg'], ['Pi', 'C', '0'], ['mr', '250']]
+LONG_Q2 = [['QS'], ['QB'], ['QP'], ['QC'], ['QN'], ['QE'], ['QL'], ['ES'], ['QR'], ['QT'], ['ES', '1'], ['qs']]
+LONG_TEXT_TMPL = {'c': ['ST,%s\r', 'ST,%s\r', 'st,%s\r', 'ST,%s'], 'q1': ['PI,%s,3\r', 'MR,%s\r', 'v,%s\r'],
+                  'q2': ['QT,%s\r', 'QU,%s\r', 'QN,%s']}
+LONG_MODES = ['zeros', 'spaces', 'text']
+WORDS = ['AxiDraw', 'plotter', 'lab', 'unit', 'Mini', 'Kit', 'V3', 'A3', 'SE', 'north', 'bench', '7', '12', 'OK', 'ok',
+         'x', 'No.', 'Evil', 'Mad', 'Scientist']
+
+
+def _i32(rng):
+    return rng.choice(I32) if rng.random() < 0.65 else rng.randint(-2 ** 31, 2 ** 31 - 1)
+
+
+def _u31(rng):
+    return rng.choice([2147483647, 2147483646, 1073741824, 1000000000, 1999999999]) if rng.random() < 0.65 \
+        else rng.randint(0, 2 ** 31 - 1)
+
+
+def long_move(rng):
+    """fields of a legacy move command with full-range arguments (natural text: 35-80 bytes)"""
+    f = rng.choice(['LM', 'LM', 'LM', 'LT', 'SM', 'XM', 'HM', 'lm'])
+    opt = rng.random() < 0.5
+    if f in ('LM', 'lm'):
+        a = [_u31(rng), _i32(rng), _i32(rng), _u31(rng), _i32(rng), _i32(rng)] + ([rng.randrange(4)] if opt else [])
+    elif f == 'LT':
+        a = [rng.choice([4294967295, 2147483648, 1000000000]), _i32(rng), _i32(rng), _i32(rng), _i32(rng)] + \
+            ([rng.randrange(4)] if opt else [])
+    elif f in ('SM', 'XM'):
+        s = lambda: rng.choice([16777215, -16777215, 10000000, -10000000, rng.randint(-16777215, 16777215)])
+        a = [rng.choice([16777215, 16777214, 10000000]), s(), s()] + ([rng.randrange(4)] if opt and f == 'SM' else [])
+    else:
+        a = [rng.choice([25000, 24999, 2])] + ([rng.choice([4294967, -4294967]), rng.choice([4294967, -4294967])] if opt else [])
+    out = [f]
+    for v in a:
+        out.append(('+' if v >= 0 and rng.random() < 0.08 else '') + str(v))
+    return out
+
+
+def long_payload(rng, n):
+    """free ASCII text of exactly n characters (nickname-like words, blanks, now and then a format-like fragment);
+    no line terminator, no comma-free guarantee needed, never an error-reply marker"""
+    out = ''
+    while len(out) < n:
+        r = rng.random()
+        if r < 0.75:
+            out += rng.choice(WORDS)
+        elif r < 0.9:
+            out += str(rng.randrange(10 ** rng.randint(1, 10)))
+        else:
+            fr = rng.choice(rng.choice(FRAG_CLASSES))
+            out += fr if 'Err' not in fr and '\r' not in fr and '\n' not in fr else '#'
+        if rng.random() < 0.7:
+            out += rng.choice([' ', ' ', '-', '_', '.', '  '])
+    out = out[:n]
+    if out.endswith('\\'):                       # nothing special about it, but keep the cut visible
+        out = out[:-1] + '/'
+    return out.replace('Err:', 'Era.')
+
+
+def pad_fields(rng, fields, extra, mode):
+    """the same request, `extra` characters longer: leading zeros in numeric arguments (after the sign) or blanks
+    (after the name, around arguments, before the terminator)"""
+    fields = list(fields)
+    nums = [i for i in range(1, len(fields)) if fields[i].lstrip('+-').isdigit()]
+    if mode == 'zeros' and nums:
+        ch, slots = '0', (nums if rng.random() < 0.5 else [rng.choice(nums)])
+    else:
+        ch, slots = ' ', (list(range(len(fields))) if rng.random() < 0.5 else [len(fields) - 1])
+    add = {i: 0 for i in slots}
+    if rng.random() < 0.5:
+        add[rng.choice(slots)] += extra
+    else:
+        for _ in range(min(extra, 40)):
+            add[rng.choice(slots)] += 1
+        add[rng.choice(slots)] += max(0, extra - 40)
+    for i, k in add.items():
+        if not k:
+            continue
+        f = fields[i]
+        if ch == '0':
+            sign = f[0] if f[0] in '+-' else ''
+            fields[i] = sign + '0' * k + f[len(sign):]
+        elif i == 0 or rng.random() < 0.6:
+            fields[i] = f + ' ' * k                       # trailing blanks (name: the name is found by strip())
+        else:
+            fields[i] = ' ' * k + f
+    return fields
+
+
+def long_request(rng, kind0, target, mode, term=None):
+    """(kind, text) with len(text) == target where the family allows it (else the natural text)"""
+    term = ('\r' if rng.random() < 0.9 else '') if term is None else term
+    if mode == 'text':
+        tm = rng.choice(LONG_TEXT_TMPL[kind0])
+        n = target - (len(tm) - 2)
+        text = tm % (long_payload(rng, max(n, 1)),)
+    else:
+        if kind0 == 'c':
+            cands = [long_move(rng) for _ in range(4)] + [rng.choice(LONG_CM)]
+        else:
+            cands = [rng.choice(LONG_Q1 if kind0 == 'q1' else LONG_Q2) for _ in range(2)]
+        fits = [f for f in cands if len(','.join(f)) + len(term) <= target] or [min(cands, key=lambda f: len(','.join(f)))]
+        f = fits[0] if kind0 == 'c' and rng.random() < 0.7 else rng.choice(fits)
+        extra = target - len(','.join(f)) - len(term)
+        if extra > 0:
+            f = pad_fields(rng, f, extra, mode)
+        text = ','.join(f) + term
+    return (kind0 if kind0 == 'c' else query_kind(text)), text
+
+
+def long_line(rng, kind, name, target):
+    """a data line of exactly `target` bytes (terminator included) a board may send to this query"""
+    body = max(target - 2, 1)
+    if name == 'A':
+        n = max(1, min(16, (body - 1) // 8))
+        s = 'A' + ''.join(',%02d:%04d' % (c, rng.randrange(1024)) for c in sorted(rng.sample(range(16), n)))
+    elif kind == 'q1':
+        s = (name + ',')[:max(body - 1, 0)]
+        s += long_payload(rng, body - len(s))
+    else:
+        s = long_payload(rng, body)
+        if rng.random() < 0.15:
+            s = ('OK' + s)[:body]
+    return (s + '\r\n').encode('ascii')
+
+
+def long_data(rng, kind, text, line_len=None):
+    """data line for a (long) query: the one of the request table for this name, or a long line"""
+    if kind == 'c':
+        return None
+    name = text.split(',')[0].strip().upper()
+    if line_len is not None:
+        return long_line(rng, kind, name, line_len)
+    known = [d for t, d in (Q1 if kind == 'q1' else Q2) if t.split(',')[0].strip().upper() == name]
+    if known:
+        return rng.choice(known)
+    return (name + ',1\r\n').encode('ascii') if kind == 'q1' else rng.choice([b'1\r\n', b'0,0\r\n', b'AxiDraw 7\r\n'])
+
+
+def long_len(rng):
+    """a length on / next to a chunking size, or anywhere between 40 and 300, rarely a few kB"""
+    r = rng.random()
+    if r < 0.45:
+        return rng.choice([64, 64, 64, 128, 128, 256, 192, 320, 512]) + rng.choice([-2, -1, 0, 1, 1, 2])
+    if r < 0.6:
+        return 64 * rng.randint(1, 9) + rng.choice([-1, 0, 1])
+    if r < 0.93:
+        return rng.randint(40, 300)
+    if r < 0.98:
+        return rng.choice(LONG_BOUNDS_MORE) + rng.choice([-1, 0, 1])
+    return rng.randint(1000, 6000)
+
+
+def long_call(rng, kind0=None, target=None, mode=None, faulty=0.0, line_len=None, verbose=Ellipsis):
+    kind0 = kind0 or rng.choice(['c', 'c', 'q1', 'q2'])
+    kind, text = long_request(rng, kind0, target or long_len(rng), mode or rng.choice(LONG_MODES))
+    data = long_data(rng, kind, text, line_len)
+    rep = base_reply(kind, data, (rng.choice(RDELAYS), rng.choice(RDELAYS)))
+    if rng.random() < faulty:
+        rep = rng.choice(odd_fault_replies(rng, kind, text, text[3:19], rep, rng.choice(EXC_NAMES), full=True))
+    return mk_odd_call(kind, text, rep, verbose=rverbose(rng, 0.6) if verbose is Ellipsis else verbose)
+
+
+def gen_long(ctx):
+    rng = ctx.rng
+    tables = {'q2': Q2, 'q1': Q1, 'c': CM}
+    cnt = itertools.count()
+
+    def ordinary(k=None, faulty=0.0):
+        k = k or rng.choice(['q2', 'q1', 'c'])
+        t, x = rng.choice(tables[k])
+        rep = base_reply(k, x, (rng.choice(RDELAYS), rng.choice(RDELAYS)))
+        if rng.random() < faulty:
+            rep = rng.choice(fault_variants(rep, rng.choice(EXC_NAMES)))
+        return mk_call(t, rep, verbose=rverbose(rng))
+
+    # --- structured, single calls on a fresh port: kind x padding mode x length on/around 64, 128, 256 (with and
+    #     without terminator) x {no fault, write fault, one fault of every kind at every reply position}
+    for kind0 in ('c', 'q1', 'q2'):
+        for bound in LONG_BOUNDS_MAIN:
+            for off in (-2, -1, 0, 1, 2):
+                for mode in LONG_MODES:
+                    kind, text = long_request(rng, kind0, bound + off, mode, term='\r' if next(cnt) % 5 else '')
+                    data = long_data(rng, kind, text)
+                    rep = base_reply(kind, data, (DELAYS[next(cnt) % 3], DELAYS[next(cnt) % 2]))
+                    exc = EXC_NAMES[next(cnt) % len(EXC_NAMES)]
+                    yield {'pre': [], 'w': '', 'calls': [mk_odd_call(kind, text, rep, verbose=bool(next(cnt) % 2))]}
+                    yield {'pre': [], 'w': 'x', 'wexc': exc, 'calls': [mk_odd_call(kind, text, rep, verbose=bool(next(cnt) % 2))]}
+                    frs = odd_fault_replies(rng, kind, text, text[3:19], rep, exc, full=(off in (0, 1) and bound == 64))
+                    for fr in frs:
+                        yield {'pre': [], 'w': '', 'calls': [mk_odd_call(kind, text, fr, verbose=bool(next(cnt) % 2))]}
+    # --- the other chunking sizes, up to a few kB
+    for bound in LONG_BOUNDS_MORE:
+        for off in (-1, 0, 1):
+            for kind0 in ('c', 'q1', 'q2'):
+                mode = LONG_MODES[next(cnt) % 3]
+                kind, text = long_request(rng, kind0, bound + off, mode, term='\r')
+                rep = base_reply(kind, long_data(rng, kind, text), (next(cnt) % 2, 0))
+                exc = EXC_NAMES[next(cnt) % len(EXC_NAMES)]
+                yield {'pre': [], 'w': '', 'calls': [mk_odd_call(kind, text, rep), ordinary()]}
+                yield {'pre': [], 'w': 'x', 'wexc': exc, 'calls': [mk_odd_call(kind, text, rep, verbose=bool(off))]}
+                for fr in rng.sample(fault_variants(rep, exc), 2):
+                    yield {'pre': [], 'w': '', 'calls': [mk_odd_call(kind, text, fr, verbose=bool(next(cnt) % 2))]}
+    # --- full-range legacy moves as they come (no padding): every natural length the argument ranges give
+    for _ in range(ctx.n(250)):
+        term = '\r' if rng.random() < 0.9 else ''
+        text = ','.join(long_move(rng)) + term
+        rep = base_reply('c', None, (rng.choice(RDELAYS), 0))
+        r = rng.random()
+        w = ''
+        if r < 0.25:
+            rep = rng.choice(odd_fault_replies(rng, 'c', text, text[3:19], rep, rng.choice(EXC_NAMES), full=True))
+        elif r < 0.35:
+            w = 'x'
+        calls = [mk_odd_call('c', text, rep, verbose=rverbose(rng))]
+        if rng.random() < 0.5:
+            calls.append(ordinary())
+        yield {'pre': [], 'w': w, 'wexc': rng.choice(EXC_NAMES), 'calls': calls}
+    # --- long reply lines: `A` with 1..16 channels, free text (QT), lengths on/around 64, 128, 256; then another request
+    for kind0, names in (('q1', [['A'], ['a'], ['I'], ['V'], ['PI', 'B', '3']]), ('q2', [['QT'], ['QU', '3'], ['QS']])):
+        for bound in LONG_BOUNDS_MAIN:
+            for off in (-1, 0, 1, 2, 3):
+                f = names[next(cnt) % len(names)]
+                text = ','.join(f) + '\r'
+                data = long_line(rng, kind0, f[0].upper(), bound + off)
+                rep = base_reply(kind0, data, (DELAYS[next(cnt) % 3], DELAYS[next(cnt) % 2]))
+                exc = EXC_NAMES[next(cnt) % len(EXC_NAMES)]
+                yield {'pre': [], 'w': '', 'calls': [mk_odd_call(kind0, text, rep), ordinary()]}
+                for fr in rng.sample(fault_variants(rep, exc), 3):
+                    yield {'pre': [], 'w': '', 'calls': [mk_odd_call(kind0, text, fr, verbose=bool(next(cnt) % 2)), ordinary()]}
+    for n in range(1, 17):
+        data = long_line(rng, 'q1', 'A', 3 + 8 * n)
+        yield {'pre': [], 'w': '', 'calls': [mk_odd_call('q1', 'A\r', base_reply('q1', data, (n % 2, 0))), ordinary('q2')]}
+    # --- in sequences: every kind of long request followed by every kind of next request (alignment is decided by
+    #     what the next request gets), at 64/65 and 128/129 bytes; the same long text twice with different answers
+    for kind0 in ('c', 'q1', 'q2'):
+        for target in (64, 65, 66, 128, 129, 257):
+            for k2 in ('q2', 'q1', 'c'):
+                a = long_call(rng, kind0, target, LONG_MODES[next(cnt) % 3], verbose=True)
+                a['reply'] = base_reply(a['k'], long_data(rng, a['k'], a['cmd']), (next(cnt) % 2, 0))
+                yield {'pre': [], 'w': '', 'calls': [a, ordinary(k2), ordinary('q2')]}
+                yield {'pre': [], 'w': '', 'calls': [ordinary(k2), a, ordinary('q2')]}
+            b = long_call(rng, kind0, target, 'text', verbose=False)
+            b2 = dict(b)
+            b2['reply'] = base_reply(b['k'], long_data(rng, b['k'], b['cmd'], None if b['k'] == 'c' else 40 + next(cnt) % 60), (1, 0))
+            yield {'pre': [], 'w': '', 'calls': [b, b2, ordinary('q2'), dict(b)]}
+    # --- random: 1-4 calls, long requests at any position among ordinary ones (several long ones back to back too),
+    #     faults on the long request, on a neighbour, at a write
+    for _ in range(ctx.n(700)):
+        n = rng.choice([1, 1, 2, 2, 3, 4])
+        j = rng.randrange(n)
+        p_fault = rng.choice([0.0, 0.0, 0.3, 0.8])
+        calls = []
+        for i in range(n):
+            if i == j or rng.random() < 0.3:
+                calls.append(long_call(rng, faulty=p_fault if i == j else 0.2,
+                                       line_len=long_len(rng) if rng.random() < 0.15 else None))
+            else:
+                calls.append(ordinary(faulty=0.3 if p_fault else 0.0))
+        w = ''
+        if rng.random() < 0.12:
+            w = 'o' * rng.randrange(n) + 'x'
+        yield {'pre': [], 'w': w, 'wexc': rng.choice(EXC_NAMES), 'calls': calls}
+
+
+def gen_verbose(ctx):
+    """every kind of request x every kind of fault (write fault, exception before / inside / instead of / after every
+    reply line, missing and unterminated lines, error lines, wrong lines, silence, 101 empty reads) x every verbose
+    value, single calls and followed by an ordinary request; a few conforming exchanges per value as well"""
+    rng = ctx.rng
+    tables = {'q2': Q2, 'q1': Q1, 'c': CM}
+    cnt = itertools.count()
+    for kind in ('q2', 'q1', 'c'):
+        for d in (0, 3):
+            text, data = pick(tables[kind], next(cnt))
+            if text.strip().lower() == 'rb':          # the reboot command is reported differently: taken separately below
+                text, data = pick(tables[kind], next(cnt))
+            rep = base_reply(kind, data, (d, d // 3))
+            exc = EXC_NAMES[next(cnt) % len(EXC_NAMES)]
+            faults = odd_fault_replies(rng, kind, text, text.strip(), rep, exc, full=True) + [[['e', 101]], [['e', 101]] + rep[1:]]
+            for v in VERBOSE_VALUES:
+                yield {'pre': [], 'w': '', 'calls': [mk_odd_call(kind, text, rep, verbose=v)]}
+                yield {'pre': [], 'w': 'x', 'wexc': exc, 'calls': [mk_odd_call(kind, text, rep, verbose=v)]}
+                for i, fr in enumerate(faults):
+                    calls = [mk_odd_call(kind, text, fr, verbose=v)]
+                    if (i + next(cnt)) % 4 == 0:
+                        t2, x2 = pick(Q2, next(cnt))
+                        calls.append(mk_call(t2, base_reply('q2', x2, (0, 0)), verbose=VERBOSE_VALUES[next(cnt) % len(VERBOSE_VALUES)]))
+                    yield {'pre': [], 'w': '', 'calls': calls}
+    # the reboot command (its I/O fault is deliberately not reported) and a request without port / text
+    for v in VERBOSE_VALUES:
+        for text in ('RB\r', 'rb\r'):
+            exc = EXC_NAMES[next(cnt) % len(EXC_NAMES)]
+            yield {'pre': [], 'w': 'x', 'wexc': exc, 'calls': [mk_call(text, [['e', 0], L(OK)], verbose=v)]}
+            yield {'pre': [], 'w': '', 'calls': [mk_call(text, [['x', exc]], verbose=v)]}
+            yield {'pre': [], 'w': '', 'calls': [mk_call(text, [], verbose=v)]}
+        yield {'pre': [], 'w': '', 'calls': [{'kind': 'q', 'port': False, 'cmd': 'QS\r', 'reply': [], 'verbose': v},
+                                             {'kind': 'c', 'port': True, 'cmd': None, 'reply': [], 'verbose': v}]}
 
 
 def load_corpus(ctx):
@@ -875,6 +1228,10 @@ def run(ctx):
     def histories():
         for h in load_corpus(ctx):
             yield 'corpus', h
+        for h in gen_verbose(ctx):
+            yield 'verbose', h
+        for h in gen_long(ctx):
+            yield 'long', h
         for h in gen_odd_text(ctx):
             yield 'odd', h
         for h in gen_exhaustive(ctx):
